@@ -31,7 +31,8 @@ VR = "egglog_core_relations::table_spec::ValueRebuilder::"
 def check_order(chk, prog):
     R = chk.rule("R-CONTAINER-ORDER", "native rebuild loop: Database::rebuild_containers dominates apply_rebuild dominates refresh_rows_for_values; the refresh gets the dirty ids of that "
                  "container pass; apply_rebuild and the refresh get the same next_ts, read after the container pass with no inc_ts before them; inc_ts follows")
-    f = prog.need("egglog_bridge::EGraph::rebuild")
+    f = prog.need_role("egglog_bridge::EGraph::rebuild", lambda g: g.crate == "egglog_bridge" and bool(g.calls_to("Database::apply_rebuild")),
+                       "bridge function calling Database::apply_rebuild")
     rc = f.calls_to("Database::rebuild_containers")
     ar = f.calls_to("Database::apply_rebuild")
     rr = f.calls_to("Database::refresh_rows_for_values")
